@@ -563,4 +563,46 @@ Proof.
   - left. exists {| b_mid := 1; b_src := Some 2000; b_tgt := Some 2001 |}. split; [vm_compute; reflexivity | right; reflexivity].
   - vm_compute. left. reflexivity.
 Qed.
+
+(* ------------------------------------------------------------------------------------------------
+   8. headline corollaries: unknown / revoked / expired / inactive mappings never yield anything but a refusal
+   ------------------------------------------------------------------------------------------------ *)
+Lemma invalid_mapping_refused :
+  forall cfg d tun rt c r,
+    match d (tunnel_mid tun rt r) with
+    | Some m => m_revoked m = true \/ m_expired m = true \/ m_active m = false
+    | None => True
+    end ->
+    refused (open current cfg d tun rt c r) = true.
+Proof.
+  intros cfg d tun rt c r Hbad.
+  destruct (refused (open current cfg d tun rt c r)) eqn:Hr; [reflexivity|].
+  pose proof (entitledb_spec d c r _ (success_implies_entitled cfg d tun rt c r Hr)) as [_ [_ [_ [_ [m [Hd [Hrev [Hexp [Hact _]]]]]]]]].
+  rewrite Hd in Hbad. destruct Hbad as [H | [H | H]]; congruence.
+Qed.
+
+(* the same along histories: an accepted open (anything logged) found its tunnel's mapping present and valid at that moment —
+   already contained in "logged true"; here as the step fact the log entries are made of *)
+Lemma unauthenticated_refused :
+  forall cfg d tun rt c r, c_registered c = false \/ c_client c = 0 -> refused (open current cfg d tun rt c r) = true.
+Proof.
+  intros cfg d tun rt c r Hbad.
+  destruct (refused (open current cfg d tun rt c r)) eqn:Hr; [reflexivity|].
+  pose proof (entitledb_spec d c r _ (success_implies_entitled cfg d tun rt c r Hr)) as [Hreg [Hcl _]].
+  destruct Hbad as [H | H]; congruence.
+Qed.
+
+(* not every request that ends up unattached is a refusal: an entitled target whose tunnel does not exist anywhere is acknowledged
+   with success and then has nothing to attach to *)
+Lemma success_ack_without_attachment :
+  open current {| cfg_self := 1; cfg_crossnode := false; cfg_routing := false |} ex_db (fun _ => None) (fun _ => None) ex_tgt ex_req = AckNoAttach.
+Proof. vm_compute. reflexivity. Qed.
+
+Lemma unattached_not_always_refused :
+  ~ (forall cfg d tun rt c r, attaches (open current cfg d tun rt c r) = false -> open current cfg d tun rt c r = Refuse true).
+Proof.
+  intro H.
+  specialize (H {| cfg_self := 1; cfg_crossnode := false; cfg_routing := false |} ex_db (fun _ => None) (fun _ => None) ex_tgt ex_req).
+  rewrite success_ack_without_attachment in H. specialize (H eq_refl). discriminate.
+Qed.
 Close Scope N_scope.
